@@ -18,7 +18,7 @@ ASSUMPTIONS = ["a watchdog timeout is inconclusive, not a violation",
 CLASSES = gen.HOSTILE_CLASSES
 FLOORS = {
     "quick": dict({"api:get_citations": 20000, "api:resolve_citations": 10000, "api:annotate_citations": 20000,
-                   "calls:ref": 300, "citations": 20000}, **{"hostile:" + c: 100 for c in CLASSES}),
+                   "calls:ref": 300, "citations": 20000, "component_hostile_docs": 600}, **{"hostile:" + c: 100 for c in CLASSES}),
     "thorough": dict({"api:get_citations": 1000000, "api:resolve_citations": 500000,
                       "api:annotate_citations": 1000000, "calls:ref": 10000},
                      **{"hostile:" + c: 5000 for c in CLASSES}),
@@ -54,6 +54,21 @@ def make_text(rng, rec):
     r = rng.random()
     if r < 0.1:
         return noise(rng)
+    if r < 0.25:
+        # hostile characters *inside* the components the later stages parse: a volume or page group with
+        # characters only a Unicode-aware class accepts, a year-like string in either year position, and
+        # references (id., supra, short form) with equally odd pin cites that resolve against it
+        rec.count("component_hostile_docs")
+        hm = gen.hostile_member(rng, short=False)
+        odd = lambda: rng.choice([gen.num(rng), gen.num(rng), "13²", "²", "٣", "１２", "①", "12½", "xii", "___", "*5", "¶ 5"])
+        pre = rng.choice(["", f" ({gen.yearish(rng)})"])
+        post = rng.choice(["", f" ({gen.yearish(rng)})", f", {odd()} ({gen.yearish(rng)})"])
+        s = f"{gen.name(rng)} v. {gen.name(rng)}{pre}{',' if not pre else ''} {hm}{post}"
+        for _ in range(rng.randint(1, 3)):
+            s += rng.choice([f". Id. at {odd()}", f". Id., at {odd()}-{odd()}", f"; {gen.ref_name(rng)}, supra, at {odd()}",
+                             f". {gen.ref_name(rng)}, {gen.hostile_member(rng, short=True)}",
+                             f". See {gen.ref_name(rng)} at {odd()}", ". Ibid."])
+        return s + rng.choice([".", "", " and more."])
     base = gen.dense_doc(rng, hostile=0, rec=rec, maxfrag=5)
     # splice every class with equal probability
     k = rng.randint(1, 5)
